@@ -563,11 +563,17 @@ class ClientGenerator:
         has_diff = False
         for new_file in Path(new_dir).rglob("*.py"):
             old_file = Path(old_dir) / new_file.relative_to(new_dir)
-            if old_file.exists():
+            if not old_file.exists():
+                has_diff = True
+                print(f"Only in newly generated output: {new_file.relative_to(new_dir)}")
+            elif old_file.read_bytes() != new_file.read_bytes():
+                has_diff = True
                 old_lines = old_file.read_text().splitlines()
                 new_lines = new_file.read_text().splitlines()
                 diff = list(difflib.unified_diff(old_lines, new_lines, fromfile=str(old_file), tofile=str(new_file)))
-                if diff:
-                    has_diff = True
-                    print("\n".join(diff))
+                print("\n".join(diff) if diff else f"Files differ only in line endings: {old_file}")
+        for old_file in Path(old_dir).rglob("*.py"):
+            if not (Path(new_dir) / old_file.relative_to(old_dir)).exists():
+                has_diff = True
+                print(f"Only in existing output: {old_file.relative_to(old_dir)}")
         return has_diff
